@@ -4,6 +4,14 @@ from .facts import span_str, place_str
 from .roles import _rv_places
 
 
+OWN_PRIMS = ("std::ptr::read", "std::ptr::read_unaligned", "std::ptr::read_volatile", "std::mem::MaybeUninit::assume_init_read",
+             "std::mem::MaybeUninit::assume_init_drop", "std::ptr::drop_in_place", "std::mem::ManuallyDrop::take",
+             "std::mem::ManuallyDrop::drop", "hashbrown::raw::Bucket::read", "std::mem::transmute_copy", "std::ptr::copy",
+             "std::ptr::copy_nonoverlapping", "std::boxed::Box::from_raw", "hashbrown::raw::Bucket::drop",
+             "std::ptr::mut_ptr::<impl *mut T>::read", "std::ptr::const_ptr::<impl *const T>::read",
+             "std::ptr::mut_ptr::<impl *mut T>::drop_in_place")
+
+
 def place_fields(place):
     return [e for e in place["p"] if e["k"] == "field"]
 
@@ -36,6 +44,7 @@ class Effects:
             "panics": [],       # Call that may panic by itself (model.panics) or assert terminators
             "unmodelled": [],   # external call without a model (and not a user trait call)
             "swap_table": [],   # Call of mem::swap/replace/take on a RawTable
+            "own_prim": [],     # Call of a primitive that duplicates or ends ownership bitwise (ptr::read, assume_init_read, drop_in_place..)
         }
         for bi, bl in enumerate(b.blocks):
             for si, st in enumerate(bl["stmts"]):
@@ -86,6 +95,8 @@ class Effects:
                          "std::ptr::read_unaligned", "std::ptr::read_volatile"):
                     if self._mentions_entry(c):
                         e["copy_out"].append(c)
+                if n in OWN_PRIMS:
+                    e["own_prim"].append(c)
                 if n == "std::boxed::Box::from_raw" and self._mentions_entry(c):
                     e["free"].append(c)
                 if n in ("std::mem::swap", "std::mem::replace", "std::mem::take") and self._mentions_table(c):
@@ -147,7 +158,7 @@ class Effects:
         if key in self._trans:
             return self._trans[key]
         out = {k: [] for k in ("w_cache", "w_entry", "table", "user", "hash", "copy_out", "free", "raw_mut", "panics",
-                               "unmodelled", "swap_table")}
+                               "unmodelled", "swap_table", "own_prim")}
         for p, body in self.cg.reach(b, include_drops).items():
             d = self.direct[p]
             for k in out:
